@@ -73,15 +73,17 @@ class TlsProtocolVersion(ProtocolVersionBase, GradeableSimple):
     def __eq__(self, other):
         return self.version.value.code == other.version.value.code
 
-    def __lt__(self, other):
-        if self.major == other.major:
-            return self.minor < other.minor
+    @property
+    def _order_key(self):
+        if self.is_google_experimental:
+            return (TlsVersion.TLS1_2.value.code, 1, self.minor)
         if self.is_draft:
-            return other.version == TlsVersion.TLS1_3
-        if other.is_draft:
-            return self.version != TlsVersion.TLS1_3
+            return (TlsVersion.TLS1_2.value.code, 2, self.minor)
 
-        return self.major < other.major
+        return (self.version.value.code, 0, 0)
+
+    def __lt__(self, other):
+        return self._order_key < other._order_key
 
     @property
     def identifier(self):
